@@ -35,6 +35,7 @@ func TestHammerOneKey(t *testing.T) {
 		var mu sync.Mutex
 		var regs []*int32
 		var wg sync.WaitGroup
+		var final, early int32 // deadlines of 6 s lie beyond every sweep of the contended phase (at most 4 s)
 		for g := 0; g < 8; g++ {
 			wg.Add(1)
 			go func(g int) {
@@ -48,7 +49,13 @@ func TestHammerOneKey(t *testing.T) {
 						}
 						st, _, _ := mkStored(kind, 1)
 						c := new(int32)
-						if q.Insert("s", st, t0.Add(time.Duration(i%3)*time.Second), func(bool, packet.Packet, packet.Packet) { atomic.AddInt32(c, 1) }) == nil {
+						late := i%3 == 2
+						if q.Insert("s", st, t0.Add(time.Duration(i%3)*3*time.Second), func(expired bool, _, _ packet.Packet) {
+							atomic.AddInt32(c, 1)
+							if expired && late && atomic.LoadInt32(&final) == 0 {
+								atomic.AddInt32(&early, 1)
+							}
+						}) == nil {
 							mu.Lock()
 							regs = append(regs, c)
 							mu.Unlock()
@@ -67,7 +74,12 @@ func TestHammerOneKey(t *testing.T) {
 			}(g)
 		}
 		wg.Wait()
+		atomic.StoreInt32(&final, 1)
 		q.Expire(t0.Add(time.Hour))
+		if early > 0 {
+			lost += int(early)
+			t.Logf("round %d: %d registrations with a deadline of 6 s expired at a sweep of at most 4 s", round, early)
+		}
 		for _, c := range regs {
 			if n := atomic.LoadInt32(c); n != 1 {
 				lost++
@@ -76,6 +88,6 @@ func TestHammerOneKey(t *testing.T) {
 		}
 	}
 	if lost > 0 {
-		ev.Fail(t, "queue-hammer", map[string]interface{}{"rounds": rounds}, "%d registrations on the contended key were not resolved exactly once", lost)
+		ev.Fail(t, "queue-hammer", map[string]interface{}{"rounds": rounds}, "%d registrations on the contended key were not resolved exactly once, or expired before their deadline", lost)
 	}
 }
